@@ -101,6 +101,7 @@ class Run:
         self.loop = None
         self.early = None
         self.ops = []
+        self.real_keys = {}         # request number -> real ConnectionKey
 
     # ---- called by transports
     def _log_write(self, c, j):
@@ -228,6 +229,14 @@ def run_scenario(cfg, next_op, keyparams):
             super().__init__(**kw)
             self.transports = []
 
+        async def connect(self, req, traces, timeout):
+            # what the REAL ClientRequest.connection_key says for request j (compared pairwise by the oracle)
+            try:
+                R.real_keys[int(req.url.path.rsplit("/", 1)[-1])] = req.connection_key
+            except ValueError:
+                pass
+            return await super().connect(req, traces, timeout)
+
         async def _create_connection(self, req, traces, timeout):
             proto = self._factory()
             tr = MemTransport(self._loop, proto, len(self.transports), R._log_write)
@@ -321,11 +330,15 @@ async def do_op(R, op, keyparams):
             return r
         R.tasks.append(loop.create_task(go()))
     elif k == "R":
+        if op[1] >= len(R.conn.transports):
+            return      # a stored history may name a connection this tree never opened (the model ignores it too)
         tr = R.conn.transports[op[1]]
         if not tr.closing and not tr.closed:
             R.events.append(("recv", op[1], op[2], R.holder(op[1]), len(R.ops) - 1))
             tr.proto.data_received(op[2])
     elif k == "X":
+        if op[1] >= len(R.conn.transports):
+            return
         tr = R.conn.transports[op[1]]
         if not tr.closing and not tr.closed:
             R.events.append(("peerclose", op[1]))
